@@ -184,6 +184,11 @@ class Typer:
                         if isinstance(elts[0], ast.Name):
                             self.env[elts[0].id] = ()
                         elts, args = [elts[1]], args[:1]
+                    lead = [(a, self.expr(a)) for a in args]
+                    lead = [(a, t[0]) for a, t in lead if t is not None and len(t) >= 1 and t[0][0] == "L" and t[0][1] != "*"]
+                    for (a1, x1), (a2, x2) in zip(lead, lead[1:]):
+                        if x1[1] != x2[1]:
+                            self.problems.append(Mismatch(s.iter, f"zip pairs the axis {show((x1,))} of '{core.norm(core.src(a1), 30)}' with the axis {show((x2,))} of '{core.norm(core.src(a2), 30)}'"))
                     for e, a in zip(elts, args):
                         ta = self.expr(a)
                         if isinstance(e, ast.Name):
@@ -271,6 +276,8 @@ class Typer:
             key = core.src(e)
             if key in self.env:
                 return self.env[key]
+            if key in ("np.pi", "numpy.pi", "math.pi", "np.e"):
+                return ()
             if e.attr == "T":
                 t = self.expr(e.value)
                 return tuple(reversed(t)) if t is not None and len(t) == 2 else (t if t is not None and len(t) < 2 else None)
@@ -302,8 +309,25 @@ class Typer:
                     return b if a == () else None
                 if b == () or b is None:
                     return a if b == () else None
-                return None  # element-wise product of two typed arrays: not modelled
+                # element-wise product / quotient of two typed arrays: numpy aligns the trailing axes; two labelled
+                # axes that meet must be the same kind of axis (variance is not an issue for element-wise products)
+                if isinstance(e.op, (ast.Mult, ast.Div)):
+                    la, lb = list(a), list(b)
+                    n_ = min(len(la), len(lb))
+                    for x, y in zip(la[len(la) - n_:], lb[len(lb) - n_:]):
+                        kx = x[1] if x[0] == "L" else x[0]
+                        ky = y[1] if y[0] == "L" else y[0]
+                        if x[0] in ("?", "D") or y[0] in ("?", "D") or "*" in (kx, ky):
+                            continue
+                        if kx != ky:
+                            self.problems.append(Mismatch(e, f"element-wise product aligns the axis {show((x,))} of {show(a)} with the axis {show((y,))} of {show(b)}"))
+                            return None
+                    self.n_typed += 1
+                    return a if len(a) >= len(b) else b
+                return None
             return None
+        if isinstance(e, ast.Subscript) and core.src(e) in self.env:
+            return self.env[core.src(e)]  # a seeded selection such as self._comm_points[self._ii]
         if isinstance(e, ast.Subscript):
             t = self.expr(e.value)
             self.expr(e.slice) if not isinstance(e.slice, (ast.Slice, ast.Tuple)) else None
@@ -313,16 +337,18 @@ class Typer:
             out = []
             k = 0
             for i in idx:
+                if isinstance(i, ast.Constant) and i.value is None:
+                    out.append(U)
+                    continue
                 if k >= len(t):
                     return None
                 if isinstance(i, ast.Slice):
                     out.append(t[k])
-                elif isinstance(i, ast.Constant) and i.value is None:
-                    out.append(U)
-                    continue
                 else:
                     it = self.expr(i)
                     if it is not None and it != ():
+                        if len(it) == 1 and it[0][0] == "L" and t[k][0] == "L" and it[0][1] not in ("*", t[k][1]) and t[k][1] != "*":
+                            self.problems.append(Mismatch(e, f"an index / mask over {show(it)} is applied to the axis {show((t[k],))} of {show(t)} ('{core.norm(core.src(e), 50)}')"))
                         out.append(t[k])  # fancy indexing keeps the axis
                 k += 1
             out += list(t[k:])
@@ -340,11 +366,13 @@ class Typer:
         if isinstance(e, ast.ListComp):
             return None
         if isinstance(e, (ast.Compare, ast.BoolOp)):
-            # no type of its own, but the operands are expressions whose contractions are checked
+            # a mask over the axes of its array operand; the operands are expressions whose contractions are checked
+            ts = []
             for ch in ast.iter_child_nodes(e):
                 if isinstance(ch, ast.expr):
-                    self.expr(ch)
-            return None
+                    ts.append(self.expr(ch))
+            typed = [t for t in ts if t is not None and t != ()]
+            return typed[0] if typed and all(t == typed[0] for t in typed) else None
         return None
 
     def call(self, c: ast.Call):
@@ -357,7 +385,7 @@ class Typer:
             if t is not None and len(t) == 2:
                 return (flip(t[1]), flip(t[0]))
             return None
-        if f in ("np.array", "np.asarray", "np.ascontiguousarray", "np.rint", "np.round", "np.abs", "abs", "np.copy", "np.real", "np.floor", "np.ceil", "np.repeat", "np.tile") and args:
+        if f in ("np.array", "np.asarray", "np.ascontiguousarray", "np.rint", "np.round", "np.abs", "abs", "np.copy", "np.real", "np.floor", "np.ceil", "np.repeat", "np.tile", "np.exp", "np.cos", "np.sin", "np.conj", "np.conjugate") and args:
             return self.expr(args[0])
         if f in ("np.transpose",) and len(args) == 1:
             t = self.expr(args[0])
@@ -420,6 +448,9 @@ class Typer:
             self.expr(a)
         for k in c.keywords:
             self.expr(k.value)
+        if sig and "same_as" in sig:
+            k_ = sig["same_as"]
+            return self.expr(args[k_]) if k_ < len(args) else None
         if sig:
             pos = sig.get("pos", [])
             for i, a in enumerate(args):
